@@ -130,6 +130,8 @@ fn write_config(p: &Proj, ratchet: Option<&str>, fail_fast: bool, wae: bool) {
 }
 
 struct Step {
+    /// scan root given on the command line (sub-path root), spelled like the scanner spells paths
+    root: Option<&'static str>,
     given: bool,
     update: Option<&'static str>,
     ratchet: Option<&'static str>,
@@ -144,6 +146,7 @@ struct Step {
 
 fn gen_step(r: &mut Rng, which: Which) -> Step {
     let mut s = Step {
+        root: None,
         given: r.chance(3, 4),
         update: None,
         ratchet: None,
@@ -163,6 +166,8 @@ fn gen_step(r: &mut Rng, which: Which) -> Step {
             if r.chance(1, 6) {
                 s.ratchet = Some(*r.pick(&["warn", "auto", "strict"]));
             }
+            // "whatever other flags are given": fail-fast too
+            s.fail_fast = s.update.is_none() && r.chance(1, 4);
         }
         Which::C10 => {
             s.given = r.chance(9, 10);
@@ -180,6 +185,9 @@ fn gen_step(r: &mut Rng, which: Which) -> Step {
                 }
             }
             s.fail_fast = r.chance(1, 4);
+            if s.files.is_empty() && r.chance(1, 4) {
+                s.root = Some(*r.pick(&["./src", "./src/sub", "./lib"]));
+            }
         }
         Which::C11 => {
             if r.chance(1, 4) {
@@ -221,6 +229,9 @@ fn argv(s: &Step, bl: &str) -> Vec<String> {
     }
     if s.warn_only { a.push("--warn-only".into()); }
     if s.fail_fast && !s.ff_by_config { a.push("--fail-fast".into()); }
+    if let Some(root) = s.root {
+        a.push(root.into());
+    }
     if !s.files.is_empty() {
         a.push("--files".into());
         // same spelling as the scanner produces (path spelling is C08's subject)
@@ -280,8 +291,11 @@ fn history(sink: &mut Sink, r: &mut Rng, which: Which, scratch: &str, bin: &str,
         // the files that were processed (fail-fast may skip some)
         let reported: BTreeSet<(String, char)> = observed.as_ref().map(|o| o.iter().map(|x| (x.path.clone(), x.kind)).collect()).unwrap_or_default();
         let listed: BTreeSet<String> = step.files.iter().map(|f| canon(f)).collect();
+        let under_root = |p: &str| -> bool {
+            step.root.is_none_or(|rt| { let rt = canon(rt); p == rt || p.starts_with(&format!("{rt}/")) })
+        };
         let in_scope = |x: &Res| -> bool {
-            if step.files.is_empty() { true } else { x.kind == 'c' && listed.contains(&x.path) }
+            if step.files.is_empty() { under_root(&x.path) } else { x.kind == 'c' && listed.contains(&x.path) }
         };
         let candidates: Vec<Res> = raw.iter().filter(|x| in_scope(x)).cloned().collect();
         let processed: Vec<Res> = candidates.iter().filter(|x| x.kind != 'c' || reported.contains(&(x.path.clone(), 'c'))).cloned().collect();
@@ -289,7 +303,7 @@ fn history(sink: &mut Sink, r: &mut Rng, which: Which, scratch: &str, bin: &str,
             // full scan: every result path and every scanned directory (all dirs have stats)
             let mut e: BTreeSet<String> = processed.iter().map(|x| x.path.clone()).collect();
             for d in [".", "src", "src/sub", "lib"] {
-                if p.dir.join(d).is_dir() {
+                if p.dir.join(d).is_dir() && under_root(d) {
                     e.insert(d.to_string());
                 }
             }
@@ -445,7 +459,7 @@ fn history(sink: &mut Sink, r: &mut Rng, which: Which, scratch: &str, bin: &str,
         let shape = format!(
             "{}{}{}{}{}",
             step.update.map_or(String::new(), |m| format!("+upd-{m}")), step.ratchet.map_or(String::new(), |m| format!("+rat-{m}")),
-            if step.fail_fast { "+ff" } else { "" }, if step.files.is_empty() { "" } else { "+files" }, if step.given { "+bl" } else { "" }
+            if step.fail_fast { "+ff" } else { "" }, if step.files.is_empty() { if step.root.is_some() { "+subroot" } else { "" } } else { "+files" }, if step.given { "+bl" } else { "" }
         );
         sink.push(Case {
             request: req,
@@ -458,7 +472,7 @@ fn history(sink: &mut Sink, r: &mut Rng, which: Which, scratch: &str, bin: &str,
 }
 
 fn step_clone(s: &Step) -> Step {
-    Step { given: s.given, update: s.update, ratchet: s.ratchet, ratchet_by_config: s.ratchet_by_config, warn_only: s.warn_only, wae: s.wae, files: s.files.clone(), fail_fast: s.fail_fast, ff_by_config: s.ff_by_config, threads: s.threads }
+    Step { root: s.root, given: s.given, update: s.update, ratchet: s.ratchet, ratchet_by_config: s.ratchet_by_config, warn_only: s.warn_only, wae: s.wae, files: s.files.clone(), fail_fast: s.fail_fast, ff_by_config: s.ff_by_config, threads: s.threads }
 }
 
 fn restore(p: &Proj, rel: &str, state: &Option<Vec<u8>>) {
